@@ -659,6 +659,27 @@ Definition sp_take_drop_f (c : cfg) (st : astate) (nx : N) (v : nat) (tk : tkind
   | None => None
   end.
 
+(** a drain that is dropped without having yielded anything: the elements of the range are destroyed in order;
+    when the destructor of the k-th panics, the type-erased drain stops there, the typed one destroys the rest of
+    the range all the same (slice drop glue) and then unwinds; either way the tail is not moved: the vector keeps
+    the elements in front of the range, the rest is leaked *)
+Definition sp_drain_f (c : cfg) (st : astate) (nx : N) (a : api) (v : nat) (sb eb : bound) (k : N) : option sres :=
+  match get_a v st with
+  | None => None
+  | Some av =>
+      let xs := a_xs av in
+      match range_of_bounds usize_max (N.of_nat (length xs)) (to_sb sb) (to_sb eb) with
+      | None => Some (panic_res (range_panic sb eb) [] st nx)
+      | Some (s, e) =>
+          let s := N.to_nat s in let e := N.to_nat e in
+          let range := firstn (e - s) (skipn s xs) in
+          if c_dg c && (k <? N.of_nat (e - s))
+          then Some (panic_res PUser (map EDrop (match a with Erased => firstn (S (N.to_nat k)) range | Typed => range end))
+                               (set_a v (Some (with_xs av (firstn s xs))) st) nx)
+          else sp_drain c st nx v sb eb [] FinDrop
+      end
+  end.
+
 Definition spec_step_f (c : cfg) (st : astate) (nx : N) (fuse : option N) (o : op) : option sres :=
   match fuse with
   | None => spec_step c st nx o
@@ -672,6 +693,7 @@ Definition spec_step_f (c : cfg) (st : astate) (nx : N) (fuse : option N) (o : o
                               s_st := set_a v None st; s_nx := s_nx r |}
           | None => None
           end
+      | ODrain a v sb eb [] FinDrop => sp_drain_f c st nx a v sb eb k
       | OPop _ v KDrop => sp_take_drop_f c st nx v TPop 0 k
       | ORemove _ v idx KDrop => sp_take_drop_f c st nx v TRemove idx k
       | OSwapRemove _ v idx KDrop => sp_take_drop_f c st nx v TSwapRemove idx k
